@@ -16,6 +16,7 @@
 #pragma once
 
 #include <unifex/config.hpp>
+#include <unifex/detail/verif_hooks.hpp>
 
 #include <atomic>
 #include <cassert>
@@ -79,6 +80,7 @@ public:
 
     ~guard() noexcept {
       if (state_) {
+        UNIFEX_VERIF_YIELD("race.k_gdone");
         state_->store(_done, std::memory_order_release);
       }
     }
@@ -100,6 +102,7 @@ public:
 
     ~watcher() noexcept {
       // Step 1: lock our own pointer (canary_).
+      UNIFEX_VERIF_YIELD("race.k_w1");
       auto* c = canary_.load(std::memory_order_relaxed);
       if (!c) {
         return;
@@ -110,6 +113,7 @@ public:
         // Canary destructor locked or cleared canary_. It will
         // store nullptr when done. Spin.
         while (canary_.load(std::memory_order_acquire) != nullptr) {
+          UNIFEX_VERIF_SPIN("race.k_wspin");
         }
         return;
       }
@@ -118,6 +122,7 @@ public:
       // Step 2: clear canary's watcher_ pointer.
       // Canary is alive (its destructor can't complete while our
       // canary_ is locked — its CAS on canary_ will fail).
+      UNIFEX_VERIF_YIELD("race.k_w3");
       watcher* expected = this;
       while (!c->watcher_.compare_exchange_weak(
           expected, nullptr, std::memory_order_acq_rel)) {
@@ -127,14 +132,17 @@ public:
         // watcher_ is locked (this|1) by canary destructor.
         // Canary will detect deadlock and unlock watcher_.
         // Spin-retry.
+        UNIFEX_VERIF_SPIN("race.k_wspin2");
         expected = this;
       }
 
       // Step 3: unlock and clear canary_.
+      UNIFEX_VERIF_YIELD("race.k_w4");
       canary_.store(nullptr, std::memory_order_release);
     }
 
     [[nodiscard]] guard alive() noexcept {
+      UNIFEX_VERIF_YIELD("race.k_alive");
       uint8_t expected = _alive;
       if (state_.compare_exchange_strong(
               expected, _guarded, std::memory_order_acq_rel)) {
@@ -164,6 +172,7 @@ public:
 
   ~canary() noexcept {
     // Step 1: lock our own pointer (watcher_).
+    UNIFEX_VERIF_YIELD("race.k_c1");
     auto* w = watcher_.load(std::memory_order_relaxed);
     if (!w) {
       return;
@@ -179,20 +188,24 @@ public:
     // Step 2: lock watcher's canary_ pointer.
     // Watcher is alive (its destructor can't complete while our
     // watcher_ is locked — its CAS on watcher_ will fail).
+    UNIFEX_VERIF_YIELD("race.k_c3");
     canary* expected = this;
     if (!w->canary_.compare_exchange_strong(
             expected, _lock(this), std::memory_order_acq_rel)) {
       // canary_ is locked (this|1) by watcher destructor. Deadlock.
       // Canary yields: unlock watcher_ and let the watcher proceed.
+      UNIFEX_VERIF_YIELD("race.k_c3b");
       watcher_.store(w, std::memory_order_release);  // unlock
       // Watcher will clear watcher_ to nullptr. Spin until done.
       while (watcher_.load(std::memory_order_acquire) != nullptr) {
+        UNIFEX_VERIF_SPIN("race.k_cspin");
       }
       return;
     }
     // Both pointers locked. We fully own the watcher.
 
     // Step 3: guard coordination via state_.
+    UNIFEX_VERIF_YIELD("race.k_c4");
     auto old = w->state_.exchange(_dead, std::memory_order_acq_rel);
     if (old == _guarded) {
       // Guard is held — spin until released. The guard destructor
@@ -200,11 +213,14 @@ public:
       // _dead (the value we wrote) rather than waiting for a
       // specific successor value.
       while (w->state_.load(std::memory_order_acquire) == _dead) {
+        UNIFEX_VERIF_SPIN("race.k_gspin");
       }
     }
 
     // Step 4: signal completion and unlock.
+    UNIFEX_VERIF_YIELD("race.k_c5");
     w->canary_.store(nullptr, std::memory_order_release);
+    UNIFEX_VERIF_YIELD("race.k_c6");
     watcher_.store(nullptr, std::memory_order_release);
   }
 
